@@ -378,6 +378,12 @@ def check_case(case, ctx):
         ctx.case(case, bool(case['args'] or case['kwargs']), sample={'call': what, 'outcome': raised})
         return
     exempt = label in ('groups:Backreference', 'groups:Conditional') or 'Backreference' in what or 'Conditional' in what
+    if label == 'pre:Pregex' and case['kwargs'].get('escape') == ['bool', False]:
+        # a hand-written regex is the caller's responsibility: if it is not a regex, nothing is claimed about the result
+        try:
+            re.compile(args[0], dsl.FLAGS)
+        except Exception:  # noqa: BLE001
+            exempt = True
     bad = check_result(p, what, generic_texts(str(p), 7), ctx, exempt_compile=exempt)
     if bad:
         violation(bad[0], case, bad[1], ctx)
